@@ -361,7 +361,7 @@ def _run_cluster(job):
                     pos = [L.index(r) if r in L else -1 for r in t._c14_mesh]
                     ok = ok and _same_view(bi.get_tensor(t), t)
                     state.append((ids.index(bi.composable_block_ids), int(bi.group_source_rank), pos))
-                out.append({"ok": bool(ok), "numels": [int(b.numel()) for b in d._global_blocked_params], "sel": sel, "state": state, "bsr": [(int(a), int(b)) for a, b in bsr],
+                out.append({"ok": bool(ok), "numels": [int(b.numel()) for b in d._global_blocked_params], "nc_blocks": sum(1 for b in d._global_blocked_params if not b.is_contiguous()), "sel": sel, "state": state, "bsr": [(int(a), int(b)) for a, b in bsr],
                             "views": views, "total": total, "local": local})
             except Exception as ex:  # noqa
                 import traceback
@@ -661,6 +661,8 @@ def _targeted_shapes(copy, variant):
     base = [((7, 3), None), ((11,), None), ((3, 2), None), ((5, 5), None)] if not variant else [((2,), None), ((9, 4), None), ((1,), None), ((6, 7), None), ((3,), None)]
     if copy == "hsdp":
         return [(sh, (1 if i % 2 else 0, math.prod(sh) - (1 if i == 1 else 0))) for i, (sh, _) in enumerate(base)]
+    if copy == "hybrid":
+        return base[:2] + [((0, 3), None)] + base[2:]        # a parameter whose local shard is empty (skipped by the distributor)
     return base
 
 
@@ -928,7 +930,7 @@ def run(ck: Check) -> None:
             if sum(al) and (al, gs) not in cand:
                 cand[(al, gs)] = (s, o)
     for (s, gs, o) in a_keys:
-        if not isinstance(o, str) and 3 <= len(s) <= 9 and 2 <= gs <= 4:
+        if not isinstance(o, str) and 3 <= len(s) <= 9 and 2 <= gs <= 4 and sum(a for a, _ in o) > 0:
             cand.setdefault((tuple(sorted(a for a, _ in o)), gs), (s, o))
     worst, nopt, viol = (0.0, None), 0, []
     keys = sorted(cand, key=lambda k: (-len(k[0]), k))
@@ -946,6 +948,83 @@ def run(ck: Check) -> None:
         s, gs, o, lpt, opt = viol[0]
         ck.report(None, f"Graham bound fails numerically on the implementation's output: sizes={list(s)} gs={gs} max_load={lpt} optimum={opt}",
                   {"kind": "assign-property-fails", "copies": list(COPIES), "sizes": list(s), "gs": gs, "impl": o, "lpt": lpt, "opt": opt, "predicate": "3*gs*max_load <= (4*gs-1)*OPT (brute force)"})
+
+
+    # ---------------- quantifier audit: measured number of generated cases per input class named or allowed by the property ----------------
+    def al64(x):
+        return (x + 63) // 64 * 64
+
+    A = {k: 0 for k in (
+        "A_group_size_1", "A_group_size_2_to_4", "A_group_size_5_to_15", "A_group_size_16", "A_empty_block_list", "A_single_block", "A_zero_byte_block",
+        "A_some_size_not_multiple_of_64", "A_all_sizes_multiples_of_64", "A_ties_after_alignment", "A_all_blocks_equal", "A_fewer_blocks_than_ranks", "A_more_blocks_than_ranks",
+        "A_one_dominant_block_many_small", "A_padding_exceeds_half_of_load", "A_rank_load_ge_2GiB", "A_rank_load_ge_4GiB", "A_single_block_ge_2GiB", "A_size_ge_2^62_(Z_literal_path)",
+        "A_stub_param_dtype_bf16_or_fp16", "A_stub_param_dtype_f64")}
+
+    def classify(sizes, gs):
+        n = len(sizes)
+        if gs < 1:
+            return
+        A["A_group_size_1"] += gs == 1
+        A["A_group_size_2_to_4"] += 2 <= gs <= 4
+        A["A_group_size_5_to_15"] += 5 <= gs <= 15
+        A["A_group_size_16"] += gs == 16
+        A["A_empty_block_list"] += n == 0
+        A["A_single_block"] += n == 1
+        A["A_zero_byte_block"] += 0 in sizes
+        nm = any(x % 64 for x in sizes)
+        A["A_some_size_not_multiple_of_64"] += nm
+        A["A_all_sizes_multiples_of_64"] += n > 0 and not nm
+        als = [al64(x) for x in sizes]
+        A["A_ties_after_alignment"] += len(set(als)) < n
+        A["A_all_blocks_equal"] += n >= 2 and len(set(sizes)) == 1
+        A["A_fewer_blocks_than_ranks"] += 0 < n < gs
+        A["A_more_blocks_than_ranks"] += n > gs
+        if n >= 8:
+            srt = sorted(als)
+            A["A_one_dominant_block_many_small"] += srt[-1] >= 8 * max(64, srt[n // 2])
+        tot = sum(als)
+        A["A_padding_exceeds_half_of_load"] += tot > 0 and 2 * (tot - sum(sizes)) > tot
+        A["A_rank_load_ge_2GiB"] += tot >= gs * 2 ** 31
+        A["A_rank_load_ge_4GiB"] += tot >= gs * 2 ** 32
+        A["A_single_block_ge_2GiB"] += n > 0 and max(sizes) >= 2 ** 31
+        A["A_size_ge_2^62_(Z_literal_path)"] += n > 0 and max(sizes) >= 2 ** 62
+        pd = stub_param_dt(sizes, gs)
+        A["A_stub_param_dtype_bf16_or_fp16"] += pd in ("bf16", "fp16")
+        A["A_stub_param_dtype_f64"] += pd == "f64"
+
+    for blk in a_blocks:
+        for sz in block_inputs(blk):
+            classify(sz, blk[3])
+    for sz, g in a_rand:
+        classify(sz, g)
+    audit = {k: 3 * v for k, v in A.items()}                  # every input runs on the three copies
+    audit["A_group_size_0_(IndexError, outside the property)"] = 3 * sum(1 for _, g in a_rand if g == 0)
+    audit["A_later_call_on_a_reused_instance_same_process (history independence)"] = 3 * sum(len(seq) - 1 for seq in HISTORIES)
+    audit["A_lpt_worst_case_families"] = 3 * len(TIGHT)
+    bk = [k for k in b_keys for _ in b_cases[k]]
+    audit.update({
+        "B_comm_dtype_fp32": sum(1 for k in bk if k[1] == "fp32"), "B_comm_dtype_fp16": sum(1 for k in bk if k[1] == "fp16"), "B_comm_dtype_bf16": sum(1 for k in bk if k[1] == "bf16"),
+        "B_param_dtype_bf16_or_fp16": sum(1 for k in bk if k[5] in ("bf16", "fp16")), "B_param_dtype_f64": sum(1 for k in bk if k[5] == "f64"),
+        "B_param_2byte_and_block_bytes_1_to_32_mod_64": sum(1 for k in bk if k[5] in ("bf16", "fp16") and any(1 <= (n * DSIZE[k[1]]) % 64 <= 32 for n in k[0])),
+        "B_non_contiguous_block_views": sum(1 for k in bk if k[6] and any(len(_shape_of(n)) == 2 for n in k[0])),
+        "B_group_size_1": sum(1 for k in bk if k[2] == 1), "B_group_size_5_to_15": sum(1 for k in bk if 5 <= k[2] <= 15), "B_group_size_16": sum(1 for k in bk if k[2] == 16),
+        "B_observed_from_last_rank_of_group": sum(1 for k in bk if k[2] >= 2 and k[3] == k[2] - 1), "B_ranks_without_any_block": sum(1 for k in bk if len(k[0]) < k[2]),
+        "B_block_bytes_not_multiple_of_64": sum(1 for k in bk if any((n * DSIZE[k[1]]) % 64 for n in k[0])),
+        "B_block_bytes_exact_multiple_of_64": sum(1 for k in bk if any((n * DSIZE[k[1]]) % 64 == 0 for n in k[0])),
+    })
+    audit.update({
+        "C_param_dtype_bf16_or_fp16": sum(j["R"] for j in c_jobs if j.get("pd") in ("bf16", "fp16")), "C_param_dtype_f64": sum(j["R"] for j in c_jobs if j.get("pd") == "f64"),
+        "C_comm_dtype_DEFAULT": sum(j["R"] for j in c_jobs if j["default_dtype"]), "C_comm_dtype_fp16_or_bf16": sum(j["R"] for j in c_jobs if j["dt"] != "fp32"),
+        "C_num_trainers_per_group_minus_1": sum(j["R"] for j in c_jobs if j.get("ntpg_default")), "C_communicate_params_True": sum(j["R"] for j in c_jobs if j.get("communicate_params")),
+        "C_group_size_1": sum(j["R"] for j in c_jobs if j["gs"] == 1), "C_group_size_8": sum(j["R"] for j in c_jobs if j["gs"] == 8), "C_group_size_16": sum(j["R"] for j in c_jobs if j["gs"] == 16),
+        "C_several_groups_per_replication_set": sum(j["R"] for j in c_jobs if j["R"] > j["gs"]),
+        "C_second_distributor_same_group_size_same_process": sum(j["R"] for j in c_jobs if j.get("twin_of_previous")),
+        "C_hsdp_empty_or_partial_shards": sum(j["R"] for j in c_jobs if j["copy"] == "hsdp" and any(b - a < math.prod(sh) for sh, (a, b) in j["shapes"])),
+        "C_hybrid_empty_local_parameter": sum(j["R"] for j in c_jobs if j["copy"] == "hybrid" and any(math.prod(sh) == 0 for sh, _ in j["shapes"])),
+        "C_use_merge_dims_False": sum(j["R"] for j in c_jobs if not j["merge"]),
+        "C_blocks_that_are_non_contiguous_views": sum(1 for _, _, r in c_cases if r.get("nc_blocks", 0) > 0),
+        "C_ranks_without_any_block": sum(1 for j, _, r in c_cases if "numels" in r and not any(r["sel"])),
+    })
 
     # ---------------- evidence ----------------
     def hist(xs):
@@ -970,7 +1049,7 @@ def run(ck: Check) -> None:
         blocks_hist[nb(len(s))] = blocks_hist.get(nb(len(s)), 0) + 1
         gs_hist[gb(gs)] = gs_hist.get(gb(gs), 0) + 1
     n_b = sum(len(v) for v in b_cases.values())
-    total_eval = 3 * (n_block_cases + len(a_rand)) + n_b + len(c_cases)
+    total_eval = 3 * (n_block_cases + len(a_rand) + n_hist_calls) + n_b + len(c_cases)
     nontriv = (sum(len(v) ** k for p, v, k, gs in a_blocks if gs >= 2 and len(p) + k >= 2) + sum(1 for s, gs in a_rand if gs >= 2 and len(s) >= 2)
                + sum(1 for k in b_keys if k[2] >= 2 and len(k[0]) >= 2) + sum(1 for j in c_jobs if j["gs"] >= 2))
     mid = next((k for k in a_keys if 4 <= len(k[0]) <= 9 and k[1] >= 2 and not isinstance(k[2], str)), a_keys[len(a_keys) // 2])
@@ -999,6 +1078,16 @@ def run(ck: Check) -> None:
             "C_replicas": hist(j["R"] for j in c_jobs), "C_blocks": hist(nb(len(r.get("numels", []))) for _, _, r in c_cases),
         },
         "disagreements": {"A": len(a_bad), "B": len(b_bad), "C": len(c_bad)},
+        "quantifier_audit": audit,
+        "not_exercised": [
+            "per-rank loads >= 2 GiB with real buffers (streams B/C): only the byte-count function _distribute_buffer_sizes sees such sizes (stream A); allocating multi-GiB gather buffers per case is out of reach",
+            "an empty block list in streams B/C: _construct_distributed_buffers reads _global_blocked_params[0].device and raises IndexError on the unchanged tree - outside the property (stream A covers the empty list)",
+            "blocks with zero elements in streams B/C: the distributors never create them (stream A covers zero byte sizes)",
+            "CUDA devices / NCCL, real process groups and real DTensor allocation (no accelerator; state meshes are observed through the stand-ins of stream C)",
+            "group sizes that do not divide the replication set, num_trainers_per_group out of range: rejected by the constructors (C17's territory), not part of C14",
+            "communication dtypes other than DEFAULT/FP32/FP16/BF16: the enum has no other member",
+            "group sizes above 16 in the quick tier (thorough: up to 32) - outside the quantified range 1..16",
+        ],
         "graham_numeric_evidence": {"label": "evidence, not proof: brute-force optimum on the implementation's outputs (<= 7 blocks from the exhaustive scope, <= 9 from the hand-picked families; groups 2..4)", "cases": nopt,
                                     "max_ratio_lpt_over_opt": round(worst[0], 6), "worst_case": worst[1], "bound_checked": "3*gs*max_load <= (4*gs-1)*OPT", "violations": len(viol)},
     })
@@ -1020,7 +1109,10 @@ def replay(obj) -> bool:
     if "sizes" in obj and "gs" in obj:
         cl = _classes()
         for c in obj.get("copies") or COPIES:
-            print(c, "_distribute_buffer_sizes", obj["sizes"], "gs", obj["gs"], "->", _call_assign(*cl[c], obj["gs"], obj["sizes"]), "recorded", obj.get("impl"))
+            if c.endswith(":history"):
+                print(c, "call sequences of HISTORIES on one reused instance ->", [per for seq in impl_assign_history(HISTORIES) for per in seq], "recorded (one of the calls)", obj["sizes"], obj["gs"], obj.get("impl"))
+                continue
+            print(c, "_distribute_buffer_sizes", obj["sizes"], "gs", obj["gs"], "->", _call_assign(*cl[c], obj["gs"], tuple(obj["sizes"])), "recorded", obj.get("impl"))
         return True
     if "numels" in obj:
         for c in obj.get("copies") or [obj["copy"]]:
